@@ -78,7 +78,9 @@ class TriggerContext:
                 new_callback = result.process(self)
                 if new_callback is not None:
                     self.callbacks.append(new_callback)
-            except Exception:
+            except BaseException:
+                # (a refused hand-over of the snapshot - delivery is closed - is not an Exception): what one result
+                # costs is its own business, the results after it (the span to close later) are still processed
                 deep.logging.exception("failed to process result {}", result)
 
     @property
